@@ -35,13 +35,14 @@ def _case_key(rec):
 
 
 class _Node(object):
-    __slots__ = ("key", "ses", "proj", "frame", "unl", "exc", "exc_tb")
+    __slots__ = ("key", "ses", "proj", "frame", "unl", "exc", "exc_tb", "bad")
 
 
-def _exec_pass(coin, parent, shape, a, bits):
+def _exec_pass(coin, parent, shape, a, bits, nout=2, want_bad=False):
     n = _Node()
     n.key = _pass_key(a)
-    n.ses = parent.ses.clone() if parent is not None else drv.Session(coin, shape)
+    n.bad = None
+    n.ses = parent.ses.clone() if parent is not None else drv.Session(coin, shape, n_out=nout)
     n.exc = None
     try:
         n.ses.sign(a)
@@ -54,6 +55,11 @@ def _exec_pass(coin, parent, shape, a, bits):
     n.unl = [drv.unlocking_of(tx, i) for i in range(len(tx.txs_in))]
     # an input whose unlocking data is byte-identical in a transaction whose frame is identical
     # projects as before (the projection is a function of those bytes)
+    if want_bad and n.exc is None:
+        try:
+            n.bad = tx.bad_solution_count()          # what the caller of sign_tx / Tx.sign reads afterwards
+        except Exception as e:  # noqa
+            n.exc = "bad_solution_count: %s: %s" % (type(e).__name__, e)
     same = parent is not None and parent.frame == n.frame
     n.proj = [parent.proj[i] if (same and parent.unl[i] == n.unl[i]) else drv.project_input(coin, tx, i, pz, bits)
               for i, pz in enumerate(n.ses.puzzles)]
@@ -84,6 +90,23 @@ def _judge_step(rec, j, prev, node, base):
     if a["mech"] == "keychain" and not node.ses.same_as_fresh:
         F("C05|keychain-history|long-lived-differs-from-fresh|%s" % ("after-kc_add" if any(x["mech"] == "kc_add" for x in rec["acts"][:j]) else "passes-only"),
           "the long-lived keychain signed differently from a fresh keychain holding the same paths / secrets / scripts")
+    if a["mech"] == "create_signed":
+        # the front-end either raises or hands back a transaction: it must raise exactly when the
+        # specification leaves some input failing validation
+        may_raise = any(al["raises"] for al in a["allowed"])
+        may_return = any(not al["raises"] for al in a["allowed"])
+        if node.ses.raised and not may_raise:
+            F("C05|create_signed_tx|raised|expected=return", "create_signed_tx raised SecretExponentMissing although every input can be signed with the WIFs given")
+            return "bad", fails
+        if not node.ses.raised and not may_return:
+            nin, nout = len(shape), rec.get("nout", 2)
+            F("C05|create_signed_tx|returned|expected=raise|inputs%soutputs" % (">" if nin > nout else "<=",),
+              "create_signed_tx returned a transaction although the WIFs given leave an input unsigned (%d inputs, %d outputs, keys %s): bad_solution_count() = %s" % (
+                  nin, nout, a["K"], node.bad))
+            return "bad", fails
+        if node.ses.raised:
+            return "other", fails          # no transaction to look at
+        base = (node.frame, base[1])       # the front-end built the transaction itself
     before_frame = prev.frame if prev is not None else base[0]
     before_unl = prev.unl if prev is not None else base[1]
     fd = drv.frame_diff(before_frame, node.frame)
@@ -119,6 +142,9 @@ def _judge_step(rec, j, prev, node, base):
                 break
         return "bad", fails
     exp_valid = match[0]["v"]
+    if node.bad is not None and node.bad != match[0]["bad"]:
+        F("C05|bad_solution_count|front-end=%s|expected=%s|got=%s" % (a["mech"], match[0]["bad"], node.bad),
+          "after the pass bad_solution_count() = %s; the specification counts %s failing inputs" % (node.bad, match[0]["bad"]))
     for i in range(len(shape)):
         p = node.proj[i]
         if "crash" in p:
@@ -153,7 +179,7 @@ def _replay_chunk(recs):
         if ck != cur_case:
             cur_case = ck
             stack = []
-            s0 = drv.Session(rec["coin"], rec["shape"])
+            s0 = drv.Session(rec["coin"], rec["shape"], n_out=rec.get("nout", 2))
             base = (drv.frame_of(s0.tx), [drv.unlocking_of(s0.tx, i) for i in range(len(rec["shape"]))])
         keys = [_pass_key(a) for a in rec["acts"]]
         L = 0
@@ -162,7 +188,8 @@ def _replay_chunk(recs):
         del stack[L:]
         for j in range(L, len(keys)):
             parent = stack[-1] if stack else None
-            stack.append(_exec_pass(rec["coin"], parent, rec["shape"], rec["acts"][j], bits))
+            stack.append(_exec_pass(rec["coin"], parent, rec["shape"], rec["acts"][j], bits, nout=rec.get("nout", 2),
+                                    want_bad=rec.get("mode") in ("front", "kc")))
             stats["passes"] += 1
         applied = True
         for j in range(len(keys)):
@@ -243,8 +270,8 @@ def run(ctx):
 
     # 2. spec -> code
     if want("replay") or any(o.startswith("replay_") for o in (only or ())):
-        plans = ([("MC_SignerReplay_ord_q", {}), ("MC_SignerReplay_prod", {}), ("MC_SignerReplay_kc_q", {}), ("MC_SignerReplay_lim_q", {})] if q else
-                 [("MC_SignerReplay_ord_t", {}), ("MC_SignerReplay_prod", {}), ("MC_SignerReplay_kc_t", {}), ("MC_SignerReplay_lim_t", {})])
+        plans = ([("MC_SignerReplay_ord_q", {}), ("MC_SignerReplay_prod", {}), ("MC_SignerReplay_front", {}), ("MC_SignerReplay_kc_q", {}), ("MC_SignerReplay_lim_q", {})] if q else
+                 [("MC_SignerReplay_ord_t", {}), ("MC_SignerReplay_prod", {}), ("MC_SignerReplay_front", {}), ("MC_SignerReplay_kc_t", {}), ("MC_SignerReplay_lim_t", {})])
         for cfg, kw in plans:
             if only is not None and "replay" not in only and not any(o.startswith("replay_") and o[7:] in cfg for o in only):
                 continue
@@ -267,15 +294,15 @@ def run(ctx):
         # binding self-test: a behaviour whose expected outcome is corrupted must be rejected
         rec = {"k": "beh", "coin": "BTC", "shape": [{"kind": "p2pkh", "m": 1, "keys": [1], "form": "c"}],
                "acts": [{"mech": "lookup", "K": [1], "I": [1], "ht": 1, "scr": True, "reg": [], "sec": [], "fresh": True, "ic": "none",
-                         "sup": [1], "touch": [1], "allowed": [{"s": [[[1, 1]]], "v": [True]}]}],
+                         "sup": [1], "touch": [1], "allowed": [{"s": [[[1, 1]]], "v": [True], "bad": 0, "raises": False}]}],
                "outs": [{"signed": [[[1, 1]]], "valid": [True]}],
                "flags": ["P2SH", "STRICTENC", "DERSIG", "LOW_S", "NULLDUMMY", "CLEANSTACK", "WITNESS", "NULLFAIL"], "sigbyte": 1}
         f0, _ = replay_records(None, [rec], procs=1)
         bad = json.loads(json.dumps(rec))
-        bad["acts"][0]["allowed"] = [{"s": [[[1, 3]]], "v": [True]}]
+        bad["acts"][0]["allowed"] = [{"s": [[[1, 3]]], "v": [True], "bad": 0, "raises": False}]
         f1, _ = replay_records(None, [bad], procs=1)
         bad2 = json.loads(json.dumps(rec))
-        bad2["acts"][0]["allowed"] = [{"s": [[[1, 1]]], "v": [False]}]
+        bad2["acts"][0]["allowed"] = [{"s": [[[1, 1]]], "v": [False], "bad": 1, "raises": False}]
         f2, _ = replay_records(None, [bad2], procs=1)
         ctx.selftest("replay_rejects_corrupted_expectation", (not f0) and bool(f1) and bool(f2))
 
@@ -334,6 +361,7 @@ def _record_random(args):
     for t in range(count):
         coin = rnd.choice(drv.COINS)
         shape = [_random_desc(rnd, coin, big) for _ in range(rnd.randint(1, 4 if not big else 5))]
+        small = len(shape) <= 3 and all(len(d["keys"]) <= 4 for d in shape)
         ses = drv.Session(coin, shape, n_out=rnd.randint(1, 3))
         bits = drv.flag_bits(policy_names_for(coin))
         n = len(shape)
@@ -377,7 +405,8 @@ def _record_random(args):
                            "fresh": False, "ic": "set"}
                     ses.sign(add)
                     e = dict(add)
-                    e.update({"signed": [x["signed"] for x in last_pr], "valid": [x["valid"] for x in last_pr],
+                    e.update({"bad": ses.tx.bad_solution_count(), "raised": False,
+                              "signed": [x["signed"] for x in last_pr], "valid": [x["valid"] for x in last_pr],
                               "reported": [x["ok_api"] for x in last_pr], "canonical": True, "same_as_fresh": True,
                               "changed": [i + 1 for i in range(n) if drv.unlocking_of(ses.tx, i) != last_unl[i]],
                               "frame": hashlib.sha256(repr(sorted(drv.frame_of(ses.tx).items())).encode()).hexdigest()[:16]})
@@ -385,6 +414,11 @@ def _record_random(args):
                     p["fresh"] = False
                     if rnd.random() < 0.6:
                         p["reg"], p["sec"], p["scr"] = [], [], False
+            if not ev and small and rnd.random() < 0.5:
+                # the one-call front-end: build + sign with WIFs; it raises or returns a transaction
+                p = {"mech": "create_signed", "K": sorted(set(k for k in K if k <= 24)), "I": list(range(1, n + 1)), "ht": p["ht"],
+                     "scr": p["scr"], "reg": [], "sec": [], "fresh": True, "ic": "none"}
+                mech = "create_signed"
             before = [drv.unlocking_of(ses.tx, i) for i in range(n)]
             exc = None
             try:
@@ -396,6 +430,14 @@ def _record_random(args):
             e["signed"] = [x["signed"] for x in pr]
             e["valid"] = [x["valid"] for x in pr]
             e["reported"] = [x["ok_api"] for x in pr]
+            e["raised"] = bool(ses.raised) if mech == "create_signed" else False
+            if mech == "create_signed":
+                frame0 = hashlib.sha256(repr(sorted(drv.frame_of(ses.tx).items())).encode()).hexdigest()[:16]
+                before = [drv.unlocking_of(ses.tx, i) if ses.raised else ((), ()) for i in range(n)]
+            try:
+                e["bad"] = ses.tx.bad_solution_count()
+            except Exception as ex:  # noqa
+                e["bad"], exc = -1, exc or ("bad_solution_count: %s" % ex)
             e["canonical"] = not any(x["enc"] for x in pr) and exc is None and not any("crash" in x for x in pr)
             e["same_as_fresh"] = bool(ses.same_as_fresh) if mech == "keychain" else True
             last_pr, last_unl = pr, [drv.unlocking_of(ses.tx, i) for i in range(n)]
@@ -404,6 +446,8 @@ def _record_random(args):
             e["note"] = {"exc": exc, "err": [x.get("err") for x in pr], "enc": [x["enc"] for x in pr],
                          "items": [sum(drv.n_unlocking_items(ses.net, ses.tx, i)) for i in range(n)]}
             ev.append(e)
+            if e["raised"]:
+                break
         out.append({"coin": coin, "shape": shape, "pre": [[] for _ in shape], "frame": frame0, "ev": ev})
     return out
 
